@@ -78,7 +78,7 @@ RespProj(m) ==
 PairLess(p, q) == p[1] < q[1] \/ (p[1] = q[1] /\ p[2] < q[2])
 NextProj(m) == SetToSortSeq(m.next, PairLess)
 
-TreeProj(m) == LET pre == Preorder(m.T, m.T.anchor) IN [i \in 1..Len(pre) |-> <<pre[i], Diff(pre[i])>>]
+TreeProj(m) == LET pre == PreorderFast(m.T) IN [i \in 1..Len(pre) |-> <<pre[i], Diff(pre[i])>>]
 
 \* C20: what the tree requires
 TripleLess(p, q) == p[1] < q[1] \/ (p[1] = q[1] /\ p[2] < q[2])
@@ -415,7 +415,8 @@ UtxosLengthCode(m) ==
   IN IF v < 0 THEN 0 ELSE v
 UtxosLengthAlts(m) ==
   LET names == (IF PartialDelta(m) # 0 THEN {"KF_PausedUtxosLength"} ELSE {})
-               \cup (IF \E i \in 1..Len(Best(m)) : Best(m)[i] \notin m.known /\ UtxoDelta(Best(m)[i]) # 0
+               \cup (LET bc == Best(m) IN
+                     IF \E i \in 1..Len(bc) : bc[i] \notin m.known /\ UtxoDelta(bc[i]) # 0
                      THEN {"KF_UpgradeUtxosLength"} ELSE {})
   IN {<<n, UtxosLengthCode(m)>> : n \in names}
 
